@@ -9,6 +9,7 @@ pub mod obs;
 pub mod ops;
 pub mod oracle;
 pub mod rng;
+pub mod scale;
 pub mod sharedref;
 pub mod types;
 pub mod valloc;
